@@ -36,6 +36,7 @@ def run(ctx):
     ctx.guard(rule_b, ctx, ix)
     ctx.guard(rule_c, ctx, ix)
     ctx.guard(rule_d, ctx, ix)
+    ctx.guard(rule_e, ctx, ix)
 
 
 def _loop(f, data_p):
@@ -221,3 +222,46 @@ def rule_d(ctx, ix):
     inloop = [c for c in logs if any(any(c is x for x in ast.walk(lp)) for lp in loops)]
     ctx.ob(R, f.construct + ' logging', 'every dataset and each of its components is logged', len(inloop) >= 2,
            detail='load_data logs %d objects inside its dataset loop (expected the dataset and its components)' % len(inloop), where=f.where)
+
+
+def rule_e(ctx, ix):
+    """The log is shared by every dataset of the file (C19.d): a quantity of ONE dataset (its dimensionality) must not be
+    compared with a count over the components of ALL of them."""
+    R = 'C19.e'
+    ctx.describe(R, 'per-dataset quantities in the load log\'s saver are computed over one dataset\'s components', floor=1)
+    ll = ix.cls('glue.core.data_factories.helpers.LoadLog')
+    f = ll.resolve_func('__gluestate__')
+    s = f.self_name
+    shared = any(call_name(c) == 'append' and unparse(c.func.value) == '%s.components' % ll.resolve_func('_log_component').self_name
+                 for c in calls_in(ll.resolve_func('_log_component').node))
+    if not shared:
+        raise AnalysisError('LoadLog._log_component no longer appends to the shared component list')
+    n = 0
+    for cmp_ in [x for x in ast.walk(f.node) if isinstance(x, ast.Compare) and len(x.comparators) == 1]:
+        sides = [cmp_.left, cmp_.comparators[0]]
+        single = [e for e in sides if any(isinstance(y, ast.Subscript) and unparse(y.value) in ('%s.components' % s, '%s.data' % s)
+                                          and isinstance(y.slice, ast.Constant) for y in ast.walk(e))]
+        if not single:
+            continue
+        other = [e for e in sides if e not in single]
+        for e in other:
+            # follow one local name to the expression that counts
+            if isinstance(e, ast.Name):
+                defs = [st for st in walk_no_nested(f.node) if isinstance(st, ast.Assign) and unparse(st.targets[0]) == e.id]
+                e = defs[-1].value if defs else e
+            comps = [c for c in ast.walk(e) if isinstance(c, (ast.ListComp, ast.GeneratorExp, ast.SetComp))
+                     and any(unparse(g.iter) == '%s.components' % s for g in c.generators)]
+            for c in comps:
+                n += 1
+                conds = [unparse(i) for g in c.generators for i in g.ifs]
+                per_dataset = any(('_data' in t or '.data' in t) and (' is ' in t or '==' in t) for t in conds)
+                ctx.idiom(R, '%s `%s`' % (f.construct, unparse(cmp_)[:60]),
+                          'a count compared with a property of the first dataset ranges over that dataset\'s components only',
+                          accepted=per_dataset, absent=not per_dataset,
+                          detail_absent='LoadLog.__gluestate__ compares `%s`, a count over the components of every dataset loaded from the '
+                                        'file, with `%s`, a property of the first one: for a file that yields several datasets (two '
+                                        'tables, several image extensions) the decision (force_coords) is taken on the wrong count, and '
+                                        'the session saved by reference does not restore' % (unparse(c)[:90], unparse(single[0])),
+                          shape=unparse(c), where=where(f, cmp_))
+    if n < 1:
+        raise AnalysisError('LoadLog.__gluestate__: the coordinate-count heuristic is no longer recognised')
